@@ -118,3 +118,60 @@ def _f8b_witness():
     span = 2 * (ref[-1, 1] - ref[0, 1])
     p = comp_problem(GT.Stretch(val=span, mesh_shape=mesh.shape, symmetry=True), dict(span=np.array([span]), in_mesh=mesh))
     return bool(np.max(np.abs(np.array(p.get_val("mesh")) - mesh)) > 1e-6)
+
+
+# ---------------------------------------------------------------------------------------
+# aerodynamic findings: tagged by the oracle that recognises the exact mechanism
+# ---------------------------------------------------------------------------------------
+for _fid in ("F4", "F5", "F6", "F7", "F9"):
+    CLASSIFIERS[_fid] = (lambda fid: (lambda f: f.get("finding") == fid))(_fid)
+
+
+@witness("F4")
+def _f4_witness():
+    import numpy as np
+    from .core import comp_problem
+    from openaerostruct.aerodynamics.wave_drag import WaveDrag
+    inp = dict(Mach_number=0.9, CL=0.5, widths=np.array([1.0, 1.0]), lengths_spanwise=np.array([1.0, 1.0]),
+               chords=np.array([1.0, 1.0, 1.0]), t_over_c=np.array([0.12, 0.12]))
+    r = []
+    for sym in (True, False):
+        s = dict(name="w", symmetry=sym, mesh=np.zeros((2, 3, 3)), with_wave=True)
+        r.append(float(comp_problem(WaveDrag(surface=s), inp).get_val("CDw")[0]))
+    return r[1] > 0 and abs(r[0] - 2 * r[1]) < 1e-12
+
+
+@witness("F9")
+def _f9_witness():
+    import numpy as np
+    from openaerostruct.aerodynamics.eval_mtx import _compute_finite_vortex
+    r1 = np.array([[1.0, 0.0, 0.0]]); r2 = np.array([[0.0, 1.0, 0.0]])
+    k = 1e-6
+    a = _compute_finite_vortex(r1, r2); b = _compute_finite_vortex(k * r1, k * r2)
+    return bool(np.any(a != 0) and np.all(b == 0))
+
+
+@witness("F6")
+def _f6_witness():
+    import numpy as np
+    import openaerostruct.geometry.geometry_mesh_transformations as GT
+    from .core import comp_problem
+    mesh = np.array([[[0.0, 0.0, 0.0], [0.0, 1.0, 0.0], [0.0, 2.0, 0.0]], [[1.0, 0.0, 0.0], [1.0, 1.0, 0.0], [1.0, 2.0, 0.0]]])
+    p = comp_problem(GT.Taper(val=0.5, mesh=mesh, symmetry=True), dict(taper=np.array([0.5])))
+    return bool(np.array_equal(np.array(p.get_val("mesh")), mesh))
+
+
+@witness("F5")
+def _f5_witness():
+    import numpy as np
+    from . import pipelines
+    from .oracles_aero import _mirror_mesh
+    from openaerostruct.geometry.utils import generate_mesh
+    m = np.array(generate_mesh(dict(num_x=2, num_y=5, wing_type="rect", symmetry=True, span=4.0, root_chord=1.0)), dtype=float)
+    m[:, :, 1] -= 1.0
+    flow = dict(alpha=5.0, v=50.0, rho=1.0, cg=np.zeros(3))
+    half = [pipelines.aero_surface("fin", m, True)]
+    full = [pipelines.aero_surface("fin", m, False), pipelines.aero_surface("fin_m", _mirror_mesh(m), False)]
+    a = pipelines.aero_outputs(pipelines.run_aero_point(half, flow), half)["fin"]["CL"]
+    b = pipelines.aero_outputs(pipelines.run_aero_point(full, flow), full)["fin"]["CL"]
+    return abs(a - b) > 1e-6 * abs(b)
